@@ -6,7 +6,8 @@
    degenerate shapes is the correspondence/oracle part of the check (harness mode `api`). *)
 From Coq Require Import List Bool.
 From GV Require Import Base.Outcome Base.AMap Model.GState Model.Creation Model.Query Spec.AGraph Spec.History.
-From GV Require Import Proofs.WFDefs Proofs.HistoryOk Proofs.QueryOk Proofs.DegreeOk Proofs.NoPanic.
+From GV Require Import Model.Derived.
+From GV Require Import Proofs.WFDefs Proofs.HistoryOk Proofs.QueryOk Proofs.DegreeOk Proofs.NoPanic Proofs.DerivedContent.
 Import ListNotations.
 
 Section C20.
@@ -57,4 +58,33 @@ Section C20.
     get_in_edges_for_node teqb g x = Err WrongMethod /\ get_out_edges_for_node teqb g x = Err WrongMethod /\
     get_predecessor_nodes teqb g x = Err WrongMethod /\ get_successor_nodes teqb g x = Err WrongMethod.
   Proof. exact (in_out_edges_wrong_kind teqb). Qed.
+
+  (* functions without an error channel: get_subgraph and set_all_edge_weights unwrap the
+     constructor's Result; under WF that unwrap is never reached with an Err *)
+  Theorem C20_get_subgraph_never_panics : forall (g : gstate) xs,
+    WF g -> exists h, get_subgraph teqb tltb g xs = Ok h.
+  Proof.
+    intros g xs W. destruct (get_subgraph_content teqb tltb teqb_spec tltb_total g xs W) as (h & H & _).
+    exists h. exact H.
+  Qed.
+
+  Theorem C20_set_all_edge_weights_never_panics : forall (g : gstate) w,
+    WF g -> exists h, set_all_edge_weights teqb tltb g w = Ok h.
+  Proof.
+    intros g w W. destruct (set_all_edge_weights_content teqb tltb teqb_spec tltb_total g w W) as (h & H & _).
+    exists h. exact H.
+  Qed.
+
+  (* existing names: per-node queries and degrees return values *)
+  Theorem C20_degree_existing : forall (g : gstate) x,
+    WF g -> In x (names g) -> exists k, get_node_degree teqb tltb g x = Ok (Some k).
+  Proof.
+    intros g x W Hx. eexists. apply (get_node_degree_spec teqb tltb teqb_spec tltb_total g x W Hx).
+  Qed.
+
+  Theorem C20_neighbor_nodes_existing : forall (g : gstate) x,
+    WF g -> In x (names g) -> exists l, get_neighbor_nodes teqb g x = Ok l.
+  Proof.
+    intros g x W Hx. destruct (get_neighbor_nodes_spec teqb tltb g x W Hx) as (l & H & _). exists l. exact H.
+  Qed.
 End C20.
